@@ -190,6 +190,11 @@ def _shortcut(fi: FuncInfo, va: Optional[str], composite: bool, props) -> Ob:
     def transfer(s, lab, d, st):
         if s.kind in ("test", "assert") and lab in ("T", "F"):
             return refine(s.ast, lab == "T", st, atom)
+        if s.kind == "case" and isinstance(s.stmt, ast.Match) and va and src(s.stmt.subject) == f"len({va})":
+            pat = s.ast.pattern
+            if isinstance(pat, ast.MatchValue) and isinstance(pat.value, ast.Constant):
+                fake = ast.Compare(left=s.stmt.subject, ops=[ast.Eq()], comparators=[pat.value])
+                return refine(fake, lab == "case", st, atom)
         return [st]
 
     seen = explore(cfg, (None, None, None), transfer)
